@@ -10,7 +10,8 @@ DECIDED = ("R10.1: in the public forced-boolean install root, every path that al
            "bit 0 = the requested value and bits 1..7 = 0, then ret; AArch64: MOVZ w/x0 then RET x30; ARM: branch to a crate function whose "
            "body returns the constant selected by the value), writes no other register and has no stack effect; R10.4: the stub fits its mapping; "
            "R10.5: on every returning path of the forced-boolean roots the entry patch decodes to a transfer to the stub (the decision of "
-           "C01 R1.1 / C15 / C16 restricted to these roots: no call returns the value unless it gets to the stub)")
+           "C01 R1.1 / C15 / C16 restricted to these roots: no call returns the value unless it gets to the stub); R10.6: entry patch and stub of these roots consist of branches, NOPs and "
+           "moves into caller-saved scratch registers only (C13 R13.1-R13.3 on these roots)")
 NOT_DECIDED = ("exactness of the string-parsing helper over all type-name strings (only the deny-listed affix shapes and the equality "
                "requirement are decided); that the CPU executes the stub as tabulated")
 
@@ -134,6 +135,10 @@ def run(ck, models, tier):
         broots = {p for p, _, _ in br}
         k = patches.reach_obligations(ck, "R10.5", tm, lambda r: r.root in broots and (r.role == "entry"), "call-reaches-stub")
         ck.floor("R10.5", "forced-boolean-entry-patches-decoded", k, 1, tm.target)
+        # R10.6 "callee-saved registers as after a normal return": the entry patch and the stub of the forced-boolean roots write only
+        # caller-saved scratch registers (and the result register, for the stub) - the decision of C13 R13.1-R13.3 on these roots
+        k6 = patches.convention_obligations(ck, ("R10.6", "R10.6", "R10.6"), tm, lambda r: r.root in broots)
+        ck.floor("R10.6", "forced-boolean-sequences-decoded", k6, 2 if tm.arch != "arm" else 3, tm.target)
         # R10.3 the stub
         recs = patches.analyse(tm)
         n_stub = 0
